@@ -1,5 +1,3 @@
-//go:build verif && c07wip
-
 package props
 
 // c07_test.go: C07 - transaction integrity and authorisation (nothing is spent or invoked unsigned).
